@@ -7,9 +7,13 @@
  *                            cfg.FirmwareUpdate so that the device asks for a firmware URL after registration.
  * events:  SRV <call> <rr> : <payload hex>   a well-framed server message (then iterates until the staging buffer is empty)
  *          ADV <us>                           virtual time passes (device mode)
+ *          SKEW <us>                          the clock runs on but no timer callback fires (busy CPU / late timer)
  * outputs, per event k (0-based, counting SRV and ADV lines only):
  *   EV <k>
  *   V <call_id> <result> <has_data>          every srpc_getdata() return observed through -Wl,--wrap=srpc_getdata
+ *   TM <channel> <remaining_ms> <target>     (device mode, before a message) countdown slots that are running
+ *   TA <channel> <remaining_ms>              (after the message) countdown slots still running
+ *   T2L <index> <old> <new> | PIN <pin> <new level> | SR <slot> <new>   values behind CH 14 / CH 18 / CH 11 lines
  *   CH <table> <index>                       (device mode) every cell of the fixed tables whose content differs from
  *                                            the snapshot taken just before the event; after ADV only GPIO cells.
  * tables: 0 relay_cfg 1 rs_cfg 2 input_cfg 3 cfg.Time1 4 cfg.Time2 5 cfg.Time3 6 cfg.AutoCalOpenTime 7 cfg.AutoCalCloseTime
@@ -20,6 +24,7 @@
 #include "drvmain.h"
 #include "devsim.h"
 #include <supla_update.h>
+#include <supla_esp_countdown_timer.h>
 
 int *c03_chfunc(void); int c03_chfunc_len(void);
 int *c03_runtimecfg(void); int c03_runtimecfg_len(void);
@@ -108,6 +113,19 @@ static void diff(const struct snap *a, const struct snap *b, int gpio_only) {
   }
 }
 
+static void timers(const char *tag, int with_target) {
+  for (int ch = 0; ch < 16; ch++) {
+    TTimerState_ExtendedValue st; supla_esp_countdown_get_state((uint8)ch, &st);
+    if (st.RemainingTimeMs > 0) { if (with_target) vout("%s %d %u %d", tag, ch, st.RemainingTimeMs, (int)st.TargetValue[0]); else vout("%s %d %u", tag, ch, st.RemainingTimeMs); }
+  }
+}
+static void values(const struct snap *a, const struct snap *b) {
+  for (int i = 0; i < (int)(sizeof(a->state.Time2Left) / sizeof(a->state.Time2Left[0])); i++)
+    if (a->state.Time2Left[i] != b->state.Time2Left[i]) vout("T2L %d %u %u", i, a->state.Time2Left[i], b->state.Time2Left[i]);
+  for (int i = 0; i < 32; i++) if (((a->gpio ^ b->gpio) >> i) & 1) vout("PIN %d %d", i, (int)((b->gpio >> i) & 1));
+  for (int i = 0; i < (int)sizeof(a->state.Relay); i++) if (a->state.Relay[i] != b->state.Relay[i]) vout("SR %d %d", i, (int)b->state.Relay[i]);
+}
+
 /* frames and delivers one message through the real receive callback, then iterates until the staging buffer is empty */
 static void deliver(unsigned call_id, unsigned rr_id, const unsigned char *payload, unsigned n) {
   static unsigned char fr[18 + SUPLA_MAX_DATA_SIZE + 5];
@@ -167,9 +185,12 @@ static void run_case(int n, char **lines) {
       unsigned call = 0, rr = 0; sscanf(l + 4, "%u %u", &call, &rr);
       char *c = strchr(l, ':'); int len = c ? hex2bytes(c + 1 + (c[1] == ' '), buf, sizeof buf) : 0;
       vout("EV %d", k++);
-      if (!gate) take(&S0);
+      if (!gate) { timers("TM", 1); take(&S0); }
       deliver(call, rr, buf, (unsigned)len);
-      if (!gate) { take(&S1); diff(&S0, &S1, 0); }
+      if (!gate) { take(&S1); timers("TA", 0); values(&S0, &S1); diff(&S0, &S1, 0); }
+    } else if (!strncmp(l, "SKEW ", 5)) {
+      vout("EV %d", k++);
+      if (!gate) v_now += strtoull(l + 5, NULL, 0);
     } else if (!strncmp(l, "ADV ", 4)) {
       vout("EV %d", k++);
       if (!gate) { take(&S0); v_advance(strtoull(l + 4, NULL, 0)); take(&S1); diff(&S0, &S1, 1); }
